@@ -75,6 +75,28 @@ func raceOptions(w int) []string {
 	run("optA", raceOptA)
 	run("optB+optA", raceOptB, raceOptA)
 	run("none")
+	// numbers that need the high-precision form, and key caches on map targets
+	{
+		var ub bytes.Buffer
+		err := gotype.Fold([]uint64{1<<63 + uint64(w), 18446744073709551615 - uint64(w), 7}, ubjson.NewVisitor(&ub))
+		out = append(out, fmt.Sprintf("ubjH:%v:%s", err, hx(ub.Bytes())))
+		var m map[string]string
+		res := ""
+		if u, err := gotype.NewUnfolder(&m); err != nil {
+			res = "SETUPERR"
+		} else {
+			u.EnableKeyCache(4)
+			doc := fmt.Sprintf(`[{"field-%02d":"v%d","k":"w"},{"field-%02d":"x","k":"y"}]`, w, w, w)
+			var ms []map[string]string
+			u.SetTarget(&ms)
+			if err := json.Parse([]byte(doc), u); err != nil {
+				res = "ERR"
+			} else {
+				res = fmt.Sprintf("%d %s %s %s", len(ms), ms[0][fmt.Sprintf("field-%02d", w)], ms[1]["k"], ms[1][fmt.Sprintf("field-%02d", w)])
+			}
+		}
+		out = append(out, "keycache:"+res)
+	}
 	// JSON encoder settings differ from goroutine to goroutine
 	for _, html := range []bool{w%2 == 0, w%3 == 0} {
 		var buf bytes.Buffer
